@@ -20,5 +20,5 @@ one() {
   if [ -n "$R" ]; then echo -e "$R"; else echo "$N: silent"; fi
 }
 export -f one
-ls selftest/benign/*${PAT}*.diff | xargs -P 4 -I{} bash -c 'one {}' >> $LOG 2>&1
+ls /verif/selftest/benign/*${PAT}*.diff | xargs -P 4 -I{} bash -c 'one {}' >> $LOG 2>&1
 echo "== done" >> $LOG
